@@ -1,6 +1,73 @@
-"""sidecar contracts (see tools/CONTRACTS_GUIDE.md)"""
+"""sidecar contracts (see tools/CONTRACTS_GUIDE.md)
+
+P_hist -- histogram structure functions (properties C06, C11, C12).  Sidecar contracts of
+lena/structures/hist_functions.py, lena/structures/histogram.py, lena/structures/split_into_bins.py."""
 from pyvc.contracts import Contract, LoopSpec, ClassSpec
+
+HF = "lena/structures/hist_functions.py"
+HI = "lena/structures/histogram.py"
+SB = "lena/structures/split_into_bins.py"
+
+
+def norm(i, n):
+    """python index normalisation inside a clause: a negative index counts from the end"""
+    return "({i} if {i} >= 0 else {i} + {n})".format(i=i, n=n)
+
+
+def inrange(i, n):
+    return "(-{n} <= {i} < {n})".format(i=i, n=n)
 
 
 def register(ix):
-    pass
+    register_get_bin_on_index(ix)
+
+
+# ---------------------------------------------------------------------------------------------- get_bin_on_index
+def register_get_bin_on_index(ix):
+    """docstring: `Return bin corresponding to multidimensional index.  index can be a number or a list/tuple.  If index
+    length is less than dimension of bins, a subarray of bins is returned.  In case of an index error, LenaIndexError is
+    raised.`  An index is a Python index: -len <= i < len is in range and a negative one counts from the end (that is
+    why a caller must not hand an underflow index -1 to this function: C06)."""
+    def gboi(name, index_ty, bins_ty, res_ty, idx, depth, alias=None):
+        # idx: list of clause texts of the index components
+        sub = "bins"
+        bad, cur = [], "bins"
+        for d, i in enumerate(idx):
+            bad.append("not " + inrange(i, "len(%s)" % cur))
+            cur = "%s[%s]" % (cur, norm(i, "len(%s)" % cur))
+        ens = []
+        if alias is None:
+            if res_ty.startswith("Lst"):
+                ens = ["same(result, %s)" % cur]
+            elif res_ty == "Obj":
+                ens = ["result is %s" % cur]
+            else:
+                ens = ["result == %s" % cur]
+        # `raises` as a chain: a later component is only looked at when the earlier ones are in range
+        cond, pre = [], []
+        for b in bad:
+            cond.append("(%s)" % " and ".join(["not (%s)" % p for p in pre] + [b]) if pre else "(%s)" % b)
+            pre.append(b)
+        return Contract(HF, "get_bin_on_index", name="get_bin_on_index[%s]" % name,
+                        params={"index": index_ty, "bins": bins_ty}, result=res_ty,
+                        raises={"LenaIndexError": " or ".join(cond) if cond else "False"},
+                        raises_frame="pure", ensures=ens, result_alias=alias)
+    ix.add(Contract(
+        HF, "get_bin_on_index", props=["C06", "C11", "C12"], inline=True,
+        cases=[
+            gboi("number, 1-d bins", "Int", "Lst[Real]", "Real", ["index"], 1),
+            gboi("(i,), 1-d bins", "Tuple[Int]", "Lst[Real]", "Real", ["index[0]"], 1),
+            gboi("[i], 1-d bins", "PyList[1,Int]", "Lst[Real]", "Real", ["index[0]"], 1),
+            gboi("(i, j), 2-d bins", "Tuple[Int,Int]", "Lst[Lst[Real]]", "Real", ["index[0]", "index[1]"], 2),
+            gboi("[i, j], 2-d bins", "PyList[2,Int]", "Lst[Lst[Real]]", "Real", ["index[0]", "index[1]"], 2),
+            gboi("(i, j, k), 3-d bins", "Tuple[Int,Int,Int]", "Lst[Lst[Lst[Real]]]", "Real",
+                 ["index[0]", "index[1]", "index[2]"], 3),
+            # shorter index: a subarray (the very object, not a copy)
+            gboi("number, 2-d bins: a row", "Int", "Lst[Lst[Real]]", "Lst[Real]", ["index"], 1),
+            gboi("(i,), 2-d bins: a row", "Tuple[Int]", "Lst[Lst[Real]]", "Lst[Real]", ["index[0]"], 1),
+            gboi("(), the bins themselves", "Tuple[]", "Lst[Real]", "Lst[Real]", [], 0, alias="bins"),
+            # cells that are objects (SplitIntoBins)
+            gboi("(i,), 1-d bins of elements", "Tuple[Int]", "Lst[Obj]", "Obj", ["index[0]"], 1),
+            gboi("(i, j), 2-d bins of elements", "Tuple[Int,Int]", "Lst[Lst[Obj]]", "Obj", ["index[0]", "index[1]"], 2),
+        ],
+        notes="executed in place at call sites (the result may be a row OF the caller's bins: aliasing is kept)"))
